@@ -19,16 +19,38 @@ E1, two parts, both on real files in a per-worker sandbox under /var/tmp.
     x one dialect (delimiter, encoding, header mode, boolean spelling) x
     metadata form/layout x the way csv2pandas is told about the metadata.
 
+(b') the same tables with the ARGUMENTS of csv2pandas varied: every keyword
+    of its signature at a non-default value for which the statement still
+    decides the outcome (layer b-opts), and every spelling of the two path
+    arguments - absolute, ./x, dir/x, bare x, pathlib - with the worker
+    chdir'ed accordingly (layer b-paths): same result for every equivalent
+    form.
+
+(h) E3, histories: two (thorough: three) loads in ONE process over tables
+    whose metadata differ in one aspect (boolean spellings incl. swapped
+    ones, delimiter, encoding, header mode, date formats, column set,
+    metadata form/layout/route, csv2pandas options, data rows), on the same
+    file names (rewritten between the loads) or on distinct ones.  Every
+    history starts from the pristine module state (all module-level /
+    class-level values and mutable default arguments of the imported tdda
+    modules put back by introspection, functools caches cleared); oracle:
+    every load agrees with the model AND the last load gives what the same
+    load gives from the pristine state.
+
 Oracle: mc.models.csvw_spec (no tdda, no pandas).
 """
 import contextlib
+import copy
 import datetime
+import inspect
 import io
 import itertools
 import json
 import os
+import pathlib
 import re
 import shutil
+import sys
 import tempfile
 
 from mc.engine import Check, Res
@@ -41,6 +63,50 @@ DELIM_NAME = {',': 'comma', '|': 'pipe', '\t': 'tab', ';': 'semicolon'}
 ENCODINGS = ['utf-8', 'latin-1', 'utf-16']
 HEADERS = list(S.HEADER_MODES)
 BOOLFMTS = [None, 'Y|N', '1|0']
+#: one-deviation and history layers: also spellings whose polarity is the
+#: other way round in another table (N is "true" here, "false" there)
+BOOLFMTS_WIDE = BOOLFMTS + ['N|Y', 'T|F', 'F|T']
+
+#: csv2pandas keywords, each at ONE non-default value for which the statement
+#: still decides the outcome (declared names / types / values win):
+#:   mdtype-csvw            mdtype='csvw' (the metadata IS csvw)
+#:   upgrade_possible_ints  True: documented for columns read as float
+#:                          "as result of nulls"; a declared type wins
+#:   upgrade_types-false    False: names, rows and values are still decided;
+#:                          a dtype that is not the declared one is
+#:                          unspecified (the caller asked not to upgrade)
+#:   return_md              True: (frame, metadata)
+#:   table_number           index of the case's table in the table group
+#:   use_table_name         True: the table whose url ends with the file name
+#:   verbosity-0            verbosity=0
+#:   kw-neutral             **kw for read_csv at pandas' own defaults
+#:   kw-redundant           **kw repeating what the metadata says (sep,
+#:                          encoding)
+OPTS_VALUE = ['upgrade_possible_ints', 'upgrade_types-false']
+OPTS_OTHER = ['mdtype-csvw', 'return_md', 'table_number', 'use_table_name',
+              'verbosity-0', 'kw-neutral', 'kw-redundant']
+OPTS = OPTS_VALUE + OPTS_OTHER
+
+#: spellings of a path argument.  cwd = the directory holding the files:
+#: abs, dot (./x), bare (x), pathlib (Path(abs)), pathlib-bare (Path(x));
+#: cwd = its parent: sub (dir/x)
+PATHFORMS_HERE = ['abs', 'dot', 'bare', 'pathlib', 'pathlib-bare']
+PATHFORMS_PARENT = ['sub']
+
+
+def path_form_pairs(route):
+    """(pathform, mdpathform) combinations that can share one cwd; 'abs'
+    for the argument the route does not pass."""
+    here = PATHFORMS_HERE
+    if route in ('both', 'kwargs'):
+        out = [(a, b) for a in here for b in here]
+        out += [('sub', 'sub'), ('sub', 'abs'), ('abs', 'sub'),
+                ('sub', 'pathlib'), ('pathlib', 'sub')]
+    elif route == 'mdonly':
+        out = [('abs', b) for b in here + PATHFORMS_PARENT]
+    else:
+        out = [(a, 'abs') for a in here + PATHFORMS_PARENT]
+    return [x for x in out if x != ('abs', 'abs')]
 
 D1 = '2000-02-29T00:00:00.000000'
 D2 = '1969-12-31T00:00:00.000000'
@@ -204,13 +270,45 @@ ALIASES = (
 
 
 def case_b(colspecs, dialect=None, names=None, form='base', layout='single',
-           route='both', explicit=False, meta='plain'):
+           route='both', explicit=False, meta='plain', opt=None,
+           pathform='abs', mdpathform='abs'):
     cols, rows = mk_table(colspecs, names)
     d = dict(BASE_DIALECT)
     d.update(dialect or {})
-    return {'part': 'b', 'cols': cols, 'rows': rows, 'dialect': d,
-            'form': form, 'layout': layout, 'route': route,
-            'explicit': explicit, 'meta': meta}
+    c = {'part': 'b', 'cols': cols, 'rows': rows, 'dialect': d,
+         'form': form, 'layout': layout, 'route': route,
+         'explicit': explicit, 'meta': meta}
+    # the argument dimensions are only written when they deviate (older
+    # replay files stay valid)
+    if opt is not None:
+        c['opt'] = opt
+    if pathform != 'abs':
+        c['pathform'] = pathform
+    if mdpathform != 'abs':
+        c['mdpathform'] = mdpathform
+    return c
+
+
+def opt_allowed(opt, layout, route):
+    """Combinations csv2pandas documents: use_table_name needs the data
+    path; the second table of a group has to be asked for."""
+    if opt == 'use_table_name' and route == 'mdonly':
+        return False
+    if layout == 'tables2-second' and opt not in ('table_number',
+                                                  'use_table_name'):
+        return False
+    return True
+
+
+def diagonal_tables(tier, ns=(0, 1)):
+    """Each lite column spec next to its cyclic successor: every kind and
+    every lite vector once in each position."""
+    out = []
+    for n in ns:
+        lite = specs(tier, n, False)
+        for i, a in enumerate(lite):
+            out.append([a, lite[(i + 1) % len(lite)]])
+    return out
 
 
 def one_deviations():
@@ -221,7 +319,7 @@ def one_deviations():
         out.append({'encoding': x})
     for x in HEADERS[1:]:
         out.append({'header': x})
-    for x in BOOLFMTS[1:]:
+    for x in BOOLFMTS_WIDE[1:]:
         out.append({'boolformat': x})
     for x in EOLS[1:]:
         out.append({'eol': x})
@@ -236,6 +334,138 @@ def all_dialects(min_dev=0, max_dev=99, eols=('\n',)):
         ndev = sum(1 for k in d if d[k] != BASE_DIALECT[k])
         if min_dev <= ndev <= max_dev:
             yield d
+
+
+# ------------------------------------------------------------ histories (E3)
+
+#: three 3-row tables for the history layers; the strings Y / N collide with
+#: boolean spellings on purpose, x<D>y carries the delimiter
+H_TABLES = [
+    [('boolean', 'boolean', None, [True, False, None]),
+     ('integer', 'integer', None, [1, None, -7]),
+     ('string', 'string', None, ['Y', None, 'N'])],
+    [('number', 'number', None, [3.0, None, 1.5]),
+     ('date-dmy', 'date', 'd/M/yyyy', [D3, D1, None]),
+     ('datetime-fmt', 'datetime', 'dd.MM.yyyy HH:mm', [None, T2, T1])],
+    [('boolean', 'boolean', None, [False, True, True]),
+     ('date-iso', 'date', None, [D1, None, D2]),
+     ('string', 'string', None, ['a', 'é', 'x<D>y'])],
+]
+H_TABLE_SEQS = {2: [(0, 0), (1, 1), (2, 2), (0, 1), (1, 2), (2, 0)],
+                3: [(0, 0, 0), (1, 1, 1), (2, 2, 2), (0, 1, 0), (1, 2, 1),
+                    (2, 0, 2)]}
+
+H_DATEFMTS = [['d/M/yyyy', 'dd.MM.yyyy HH:mm'],
+              ['M/d/yyyy', 'MM.dd.yyyy HH:mm'],
+              [None, None],
+              ['yyyy-MM-dd', 'yyyy-MM-ddTHH:mm:ss'],
+              ['dd.MM.yy', 'yyyy-MM-dd HH:mm:ss.SSS']]
+
+#: (aspect, variants, what the last table needs); a variant is a dict of
+#: 'dialect' / 'datefmt' / 'columns' / 'rows' / case_b keywords
+H_ASPECTS = [
+    ('bool', [{'dialect': {'boolformat': x}} for x in BOOLFMTS_WIDE],
+     'boolean'),
+    ('delimiter', [{'dialect': {'delimiter': x}} for x in DELIMS], None),
+    ('encoding', [{'dialect': {'encoding': x}} for x in ENCODINGS], None),
+    ('header', [{'dialect': {'header': x}} for x in HEADERS], None),
+    ('datefmt', [{'datefmt': x} for x in H_DATEFMTS], 'temporal'),
+    ('columns', [{'columns': x} for x in
+                 ('asis', 'reversed', 'retyped', 'fewer', 'renamed')], None),
+    ('rows', [{'rows': x} for x in ('asis', 'reversed', 'none', 'first')],
+     None),
+    ('meta', [{}, {'meta': 'titles-all-str'}, {'meta': 'virtual-last'},
+              {'form': 'inline'}, {'layout': 'tables'}, {'layout': 'linked'},
+              {'explicit': True}, {'route': 'mdonly'}, {'route': 'findmd'},
+              {'route': 'kwargs'}, {'route': 'kwargs-dict'}],
+     None),
+    ('opt', [{}] + [{'opt': o} for o in (
+        'upgrade_possible_ints', 'upgrade_types-false', 'return_md',
+        'kw-redundant', 'table_number')], None),
+    ('paths', [{}, {'pathform': 'bare', 'mdpathform': 'bare'},
+               {'pathform': 'sub', 'mdpathform': 'sub'},
+               {'pathform': 'dot', 'mdpathform': 'abs'}], None),
+]
+
+
+def h_label(variant):
+    if not variant:
+        return 'default'
+    return ','.join('%s=%s' % (k, json.dumps(variant[k], sort_keys=True,
+                                             ensure_ascii=True))
+                    for k in sorted(variant))
+
+
+def h_step(ti, variant):
+    """The case_b of history table `ti` with the variant applied."""
+    cs = [list(x) for x in H_TABLES[ti]]
+    names = list(NAMESETS[0])
+    v = dict(variant)
+    datefmt = v.pop('datefmt', None)
+    if datefmt is not None:
+        for c in cs:
+            if c[1] in ('date', 'datetime'):
+                f = datefmt[0] if c[1] == 'date' else datefmt[1]
+                c[2] = f
+                c[0] = c[1] + ('-iso' if not f else '-fmt')
+    how = v.pop('columns', 'asis')
+    if how == 'reversed':
+        cs.reverse()
+        names = names[:len(cs)][::-1]
+    elif how == 'retyped':
+        cs = cs[1:] + cs[:1]
+    elif how == 'fewer':
+        cs = cs[:-1]
+    elif how == 'renamed':
+        names = list(NAMESETS[1])
+    rows = v.pop('rows', 'asis')
+    for c in cs:
+        if rows == 'reversed':
+            c[3] = c[3][::-1]
+        elif rows == 'none':
+            c[3] = []
+        elif rows == 'first':
+            c[3] = c[3][:1]
+    dialect = dict(v.pop('dialect', {}))
+    if has_bool(cs) and 'boolformat' not in dialect:
+        dialect['boolformat'] = 'Y|N'
+    return case_b([tuple(c) for c in cs], dialect, names=names, **v)
+
+
+def h_applies(ti, needs):
+    types = [c[1] for c in H_TABLES[ti]]
+    if needs == 'boolean':
+        return 'boolean' in types
+    if needs == 'temporal':
+        return 'date' in types or 'datetime' in types
+    return True
+
+
+def history_cases(length):
+    """Every sequence of `length` variants of ONE aspect in which neighbours
+    differ (and the identical repetition of the default), x table sequences
+    x same / distinct file names."""
+    for (aspect, variants, needs) in H_ASPECTS + [('same', [{}], None)]:
+        idx = range(len(variants))
+        seqs = [q for q in itertools.product(idx, repeat=length)
+                if all(q[i] != q[i + 1] for i in range(length - 1))]
+        if aspect == 'same':
+            seqs = [(0,) * length]
+        for q in seqs:
+            for tis in H_TABLE_SEQS[length]:
+                if not h_applies(tis[-1], needs):
+                    continue
+                for files in ('same', 'distinct'):
+                    steps = []
+                    for i, (ti, vi) in enumerate(zip(tis, q)):
+                        st = h_step(ti, variants[vi])
+                        if files == 'distinct':
+                            st['stem'] = 't%d' % i
+                        steps.append(st)
+                    yield {'part': 'h', 'aspect': aspect, 'files': files,
+                           'tables': list(tis),
+                           'labels': [h_label(variants[vi]) for vi in q],
+                           'steps': steps}
 
 
 #: quick time shapes for the junction layers (fraction width and junction
@@ -254,6 +484,116 @@ def msg_class(e):
     m = re.sub(r"'[^']*'|\"[^\"]*\"", '_', m)
     m = re.sub(r'\d+', '#', m)
     return '%s:%s' % (type(e).__name__, m[:48].strip())
+
+
+class ReturnShape(Exception):
+    """csv2pandas(return_md=True) did not return (frame, metadata)."""
+
+
+_CONTAINERS = (dict, list, set, bytearray)
+
+
+def _snap(obj):
+    try:
+        return copy.deepcopy(obj)
+    except Exception:
+        return copy.copy(obj)
+
+
+class PristineState(object):
+    """The state "tdda imported, nothing called yet", found BY INTROSPECTION
+    of every imported tdda module: every module-level binding, every
+    non-callable class attribute of the classes defined there, the contents
+    of every mutable container among them and among the default arguments of
+    the functions and methods defined there, and every functools cache.
+    restore() puts all of it back without re-importing."""
+
+    def __init__(self, prefix='tdda'):
+        self.mods = [m for (n, m) in sorted(sys.modules.items())
+                     if m is not None and (n == prefix or
+                                           n.startswith(prefix + '.'))]
+        self.names = {}        # module name -> {name: object}
+        self.class_attrs = []  # (class, {attr: object})
+        self.containers = []   # (live, saved)
+        self.caches = []
+        seen = set()
+        for m in self.mods:
+            mine = {}
+            for (k, v) in list(vars(m).items()):
+                if k.startswith('__') or inspect.ismodule(v):
+                    continue
+                mine[k] = v
+                self._visit(v, m.__name__, seen)
+            self.names[m.__name__] = mine
+
+    def _visit(self, v, modname, seen):
+        if id(v) in seen:
+            return
+        if isinstance(v, _CONTAINERS):
+            seen.add(id(v))
+            self.containers.append((v, _snap(v)))
+        elif inspect.isclass(v) and v.__module__ == modname:
+            seen.add(id(v))
+            attrs = {}
+            for (a, x) in list(vars(v).items()):
+                f = getattr(x, '__func__', x)
+                if inspect.isfunction(f) or hasattr(f, 'cache_clear'):
+                    self._visit(f, f.__module__, seen)
+                    continue
+                if a.startswith('__') or callable(x) or \
+                        isinstance(x, property):
+                    continue
+                attrs[a] = x
+                if isinstance(x, _CONTAINERS):
+                    self._visit(x, modname, seen)
+            self.class_attrs.append((v, attrs))
+        elif hasattr(v, 'cache_clear') and callable(v.cache_clear):
+            seen.add(id(v))
+            self.caches.append(v)
+            w = getattr(v, '__wrapped__', None)
+            if w is not None:
+                self._visit(w, modname, seen)
+        elif inspect.isfunction(v) and v.__module__ == modname:
+            seen.add(id(v))
+            for d in list(v.__defaults__ or ()) + \
+                    list((v.__kwdefaults__ or {}).values()):
+                if isinstance(d, _CONTAINERS):
+                    self._visit(d, modname, seen)
+
+    def restore(self):
+        for m in self.mods:
+            mine = self.names[m.__name__]
+            for k in list(vars(m)):
+                if k.startswith('__') or inspect.ismodule(vars(m)[k]):
+                    continue
+                if k not in mine:
+                    delattr(m, k)
+            for (k, v) in mine.items():
+                if vars(m).get(k, None) is not v:
+                    setattr(m, k, v)
+        for (cls, attrs) in self.class_attrs:
+            for a in list(vars(cls)):
+                x = vars(cls)[a]
+                if a.startswith('__') or callable(x) or \
+                        isinstance(x, (staticmethod, classmethod, property)):
+                    continue
+                if a not in attrs:
+                    delattr(cls, a)
+            for (a, x) in attrs.items():
+                if vars(cls).get(a, None) is not x:
+                    setattr(cls, a, x)
+        for (live, saved) in self.containers:
+            fresh = _snap(saved)
+            if isinstance(live, dict):
+                live.clear()
+                live.update(fresh)
+            elif isinstance(live, set):
+                live.clear()
+                live.update(fresh)
+            else:
+                live[:] = fresh
+        for c in self.caches:
+            c.cache_clear()
 
 
 class C16(Check):
@@ -290,15 +630,28 @@ class C16(Check):
             'alias tdda documents) with 0-2 (thorough 0-3) rows and nulls x '
             'delimiter {, | tab ;} x encoding {utf-8, latin-1, utf-16} x '
             'header {present, "header": false, "headerRowCount": 0} x '
-            'boolean format {default, Y|N, 1|0} x line terminator {LF, CRLF} '
+            'boolean format {default, Y|N, 1|0; one deviation and histories: '
+            'also N|Y, T|F, F|T} x line terminator {LF, CRLF} '
             'x column descriptions {plain, "titles" as string / list / '
             'language map on all or one column with the header row holding '
             'the title, "name" absent, trailing virtual column} x metadata '
             'form {datatype object, inline format} x layout {url+'
-            'tableSchema, tables[], linked schema file} x lookup {csv+'
-            'metadata path, metadata path only, findmd} x dialect defaults '
+            'tableSchema, tables[], linked schema file, group of two tables} '
+            'x lookup {csv+metadata path, metadata path only, findmd, '
+            'gen_pandas_kwargs + pandas.read_csv with the metadata as path '
+            'or as loaded document} x dialect defaults '
             '{omitted, all spelt out incl. "null": ""}, organised as base / '
-            'one deviation / two deviations (thorough: more) layers; '
+            'one deviation / two deviations (thorough: more) layers; x every '
+            'keyword of csv2pandas at one non-default value (b-opts) x every '
+            'spelling of path / mdpath: absolute, ./x, dir/x, bare x, '
+            'pathlib absolute and bare (b-paths); (h) E3 histories of 2 '
+            '(thorough 3) loads in one process from the pristine module '
+            'state, neighbours differing in one aspect {boolean spellings, '
+            'delimiter, encoding, header mode, date formats, column set, '
+            'rows, metadata form/layout/route, csv2pandas option, path '
+            'spelling} x 6 table sequences x same (rewritten) / distinct '
+            'file names, last load compared with the same load from the '
+            'pristine state; '
             'non-trivial = at least one cell or instant for which the model '
             'says "must" was compared (tables: at least one non-null '
             'specified cell); every failing table is re-loaded with each '
@@ -334,6 +687,29 @@ class C16(Check):
         'fractions below the pattern\'s digits are cut, not rounded (UAX35)',
         'bounds: 2-3 columns, 0-3 rows, the value alphabets listed in '
         'checks/c16.py',
+        'argument forms: relative str paths (./x, dir/x, bare x; cwd set for '
+        'the call) are paths like any other and must give the same result; '
+        'a pathlib.Path that csv2pandas refuses (exception) is unspecified '
+        '(tdda documents "path", the statement is silent), one it accepts '
+        'must load the described table',
+        'csv2pandas keywords: upgrade_possible_ints=True is documented for '
+        'columns that are float "as result of nulls", a DECLARED type wins; '
+        'with upgrade_types=False names, rows and values are decided but a '
+        'dtype other than the declared one is unspecified; table groups with '
+        'two tables are generated only with the case\'s table first, or '
+        'second and asked for by table_number / use_table_name',
+        'route gen_pandas_kwargs + pandas.read_csv ("as closely as possible"):'
+        ' the dtype of a date/datetime column of a ZERO-row table is '
+        'unspecified (no read_csv keyword can type an empty column)',
+        'histories: "fresh state" = every module-level / class-level binding '
+        'and mutable container (incl. mutable default arguments) of the '
+        'imported tdda modules put back by introspection, functools caches '
+        'cleared; state kept elsewhere (closures, C extensions) would only be '
+        'seen by the absolute oracle, not by the differential clause',
+        'boolean spellings that pandas itself reads with the OTHER polarity '
+        '("0|1", "false|true": pandas\' built-in 1/true and 0/false win over '
+        'true_values/false_values) are not generated: see the final report '
+        'of round 3 (candidate finding, silently wrong values on /repo HEAD)',
     ]
 
     # -------------------------------------------------------------- layers
@@ -350,7 +726,20 @@ class C16(Check):
                          'header mode x tables'),
              ('b-aliases', 'every documented datatype alias'),
              ('b-dialects', 'every dialect with exactly 2 deviations '
-                            '(thorough: >= 2) x lite tables')]
+                            '(thorough: >= 2) x lite tables'),
+             ('b-opts', 'every keyword of csv2pandas at one non-default '
+                        'value (mdtype, upgrade_types, upgrade_possible_ints, '
+                        'return_md, table_number, use_table_name, verbosity, '
+                        '**kw) x tables; x routes x layouts incl. groups of '
+                        'two tables; the value-sensitive ones x one dialect '
+                        'deviation'),
+             ('b-paths', 'every spelling of path / mdpath (absolute, ./x, '
+                         'dir/x, bare x, pathlib; cwd set accordingly) x '
+                         'routes x layouts'),
+             ('h-pairs', 'E3: two loads in one process over tables whose '
+                         'metadata differ in one aspect, from the pristine '
+                         'module state; last load == same load from the '
+                         'pristine state')]
         if tier == 'thorough':
             L += [('a-inline', 'patterns given as inline "format"'),
                   ('a-sep2', 'canonical patterns with TWO junctions '
@@ -364,7 +753,8 @@ class C16(Check):
                               'deviations'),
                   ('b-names', 'non-ASCII / spaced column names x every '
                               'dialect x titles'),
-                  ('b-dialects-full', 'every dialect x full 1-row tables')]
+                  ('b-dialects-full', 'every dialect x full 1-row tables'),
+                  ('h-triples', 'E3: three loads in one process')]
         return L
 
     def cases(self, tier, layer):
@@ -412,11 +802,74 @@ class C16(Check):
                                    'times': [j + sh], 'form': 'base',
                                    'single': False, 'junctions': k}
             return
+        if layer.startswith('h-'):
+            for c in history_cases(2 if layer == 'h-pairs' else 3):
+                yield c
+            return
         for c in self.cases_b(tier, layer):
             yield c
 
     def cases_b(self, tier, layer):
-        if layer == 'b-base':
+        if layer == 'b-opts':
+            # (1) value-sensitive options x the tables of b-base
+            # (quick: upgrade_types=False, whose dtype clause is weak, only
+            # on the 0- and 1-row tables)
+            for opt in OPTS_VALUE:
+                for n in (0, 1, 2):
+                    if n == 2 and opt == 'upgrade_types-false' and \
+                            tier != 'thorough':
+                        continue
+                    sp = specs(tier, n, True)
+                    lite = specs(tier, n, False)
+                    if n < 2:
+                        pairs = [(a, b) for a in sp for b in sp]
+                    else:
+                        pairs = [(a, b) for a in sp for b in lite] + \
+                                [(b, a) for a in sp for b in lite]
+                    for (a, b) in pairs:
+                        yield case_b([a, b], opt=opt)
+            # (2) ... x one dialect deviation x lite tables
+            for opt in OPTS_VALUE:
+                for dev in one_deviations():
+                    for n in ((1, 2) if tier == 'thorough' else (1,)):
+                        lite = specs(tier, n, False)
+                        for a in lite:
+                            for b in lite:
+                                if 'boolformat' in dev and \
+                                        not has_bool([a, b]):
+                                    continue
+                                yield case_b([a, b], dev, opt=opt)
+            # (3) every option (and none) x route x layout x header mode
+            heads = HEADERS if tier == 'thorough' else [HEADERS[0],
+                                                        HEADERS[2]]
+            for pair in diagonal_tables(tier):
+                for opt in [None] + OPTS:
+                    for route in ('both', 'mdonly', 'findmd'):
+                        for layout in ('single', 'tables', 'tables2-first',
+                                       'tables2-second', 'linked'):
+                            if not opt_allowed(opt, layout, route):
+                                continue
+                            if layout == 'linked' and tier != 'thorough':
+                                continue
+                            if opt is None and layout in ('single', 'tables',
+                                                          'linked'):
+                                continue        # b-meta1 has these
+                            for he in heads:
+                                yield case_b(pair, {'header': he}, opt=opt,
+                                             route=route, layout=layout)
+        elif layer == 'b-paths':
+            tables = diagonal_tables(tier, (0, 1, 2) if tier == 'thorough'
+                                     else (0, 1))
+            for pair in tables:
+                for route in ('both', 'mdonly', 'findmd', 'kwargs'):
+                    for layout in ('single', 'tables', 'linked'):
+                        if route == 'kwargs' and layout == 'tables' and \
+                                tier != 'thorough':
+                            continue
+                        for (pf, mf) in path_form_pairs(route):
+                            yield case_b(pair, route=route, layout=layout,
+                                         pathform=pf, mdpathform=mf)
+        elif layer == 'b-base':
             for n in (0, 1, 2):
                 sp = specs(tier, n, True)
                 lite = specs(tier, n, False)
@@ -449,7 +902,8 @@ class C16(Check):
             devs = [dict(meta=m) for m in metas] + \
                    [dict(form='inline'), dict(layout='tables'),
                     dict(layout='linked'), dict(route='mdonly'),
-                    dict(route='findmd'), dict(explicit=True)]
+                    dict(route='findmd'), dict(explicit=True),
+                    dict(route='kwargs'), dict(route='kwargs-dict')]
             for n in (0, 1):
                 lite = specs(tier, n, False)
                 for a in lite:
@@ -572,43 +1026,100 @@ class C16(Check):
         import pandas as pd
         from tdda.serial.reader import csv2pandas, load_metadata
         from tdda.serial.csvw import csvw_date_format_to_md_date_format
+        from tdda.serial.pandasio import gen_pandas_kwargs
+        self.gen_pandas_kwargs = gen_pandas_kwargs
         self.pd = pd
         self.csv2pandas = csv2pandas
         self.load_metadata = load_metadata
         self.translate = csvw_date_format_to_md_date_format
         self.tier = tier
+        self.home = os.getcwd()
         self.sandbox = tempfile.mkdtemp(prefix='tdda_mc_c16_', dir='/var/tmp')
         self.instants = S.instants(tier)
+        # taken before the first call into tdda
+        self.pristine = PristineState('tdda')
+        self.last_digest = None
 
     def teardown_worker(self):
+        home = getattr(self, 'home', None)
+        if home:
+            os.chdir(home)
         sb = getattr(self, 'sandbox', None)
         if sb and os.path.isdir(sb):
             shutil.rmtree(sb, ignore_errors=True)
         self.sandbox = None
 
     # ----------------------------------------------------------- real load
+    def spell(self, fn, form):
+        """(argument, cwd it needs or None) for the sandbox file `fn` spelt
+        in path form `form`."""
+        full = os.path.join(self.sandbox, fn)
+        if form == 'abs':
+            return full, None
+        if form == 'dot':
+            return './' + fn, self.sandbox
+        if form == 'bare':
+            return fn, self.sandbox
+        if form == 'sub':
+            return (os.path.basename(self.sandbox) + '/' + fn,
+                    os.path.dirname(self.sandbox))
+        if form == 'pathlib':
+            return pathlib.Path(full), None
+        if form == 'pathlib-bare':
+            return pathlib.Path(fn), self.sandbox
+        raise ValueError(form)
+
+    @staticmethod
+    def option_kwargs(opt, layout, delimiter, encoding):
+        if opt is None:
+            return {}
+        return {
+            'mdtype-csvw': {'mdtype': 'csvw'},
+            'upgrade_possible_ints': {'upgrade_possible_ints': True},
+            'upgrade_types-false': {'upgrade_types': False},
+            'return_md': {'return_md': True},
+            'table_number': {'table_number': S.table_index(layout)},
+            'use_table_name': {'use_table_name': True},
+            'verbosity-0': {'verbosity': 0},
+            'kw-neutral': {'skipinitialspace': False, 'quotechar': '"'},
+            'kw-redundant': {'sep': delimiter, 'encoding': encoding},
+        }[opt]
+
     def load(self, columns, rows, delimiter=',', encoding='utf-8',
              header='present', form='base', layout='single', route='both',
              explicit=False, eol='\n', virtual_last=False,
-             want_md_errors=False):
+             want_md_errors=False, opt=None, pathform='abs',
+             mdpathform='abs', stem='t', clear=True):
         """Write csv + metadata into the sandbox, run the real csv2pandas.
         -> ('ok', frame) | ('raise', exception) | ('flagged', [errors])
         (the last only with want_md_errors: tdda's own metadata validation
-        reports errors for this metadata file)."""
-        for fn in os.listdir(self.sandbox):
-            os.unlink(os.path.join(self.sandbox, fn))
-        csvpath = os.path.join(self.sandbox, 't.csv')
-        mdpath = os.path.join(self.sandbox, 't-metadata.json')
+        reports errors for this metadata file).  opt: one csv2pandas keyword
+        at a non-default value; pathform / mdpathform: how the two path
+        arguments are spelt (the cwd is set for the call and put back);
+        stem: base name of the files; clear: empty the sandbox first."""
+        if clear:
+            for fn in os.listdir(self.sandbox):
+                os.unlink(os.path.join(self.sandbox, fn))
+        csvpath = os.path.join(self.sandbox, stem + '.csv')
+        mdpath = os.path.join(self.sandbox, stem + '-metadata.json')
         with open(csvpath, 'wb') as f:
             f.write(S.csv_bytes(columns, rows, delimiter,
                                 header == 'present', encoding, eol))
         with open(mdpath, 'w') as f:
             f.write(json.dumps(S.metadata(
-                't.csv', columns, delimiter, encoding, header, form, layout,
-                explicit, virtual_last), indent=1, ensure_ascii=True))
+                stem + '.csv', columns, delimiter, encoding, header, form,
+                layout, explicit, virtual_last), indent=1,
+                ensure_ascii=True))
         if layout == 'linked':
             with open(os.path.join(self.sandbox, S.SCHEMA_FILE), 'w') as f:
                 f.write(S.schema_doc(columns, form, virtual_last))
+        p_arg, cwd1 = self.spell(stem + '.csv', pathform)
+        m_arg, cwd2 = self.spell(stem + '-metadata.json', mdpathform)
+        cwds = set(x for x in (cwd1, cwd2) if x)
+        if len(cwds) > 1:
+            raise ValueError('harness: path forms %s / %s need two cwds'
+                             % (pathform, mdpathform))
+        kw = self.option_kwargs(opt, layout, delimiter, encoding)
         out, err = io.StringIO(), io.StringIO()
         try:
             with contextlib.redirect_stdout(out), \
@@ -618,15 +1129,43 @@ class C16(Check):
                     errs = list(getattr(md, 'errors', []) or [])
                     if errs:
                         return 'flagged', errs
+                if cwds:
+                    os.chdir(list(cwds)[0])
                 if route == 'both':
-                    df = self.csv2pandas(csvpath, mdpath)
+                    df = self.csv2pandas(p_arg, m_arg, **kw)
                 elif route == 'mdonly':
-                    df = self.csv2pandas(mdpath=mdpath)
+                    df = self.csv2pandas(mdpath=m_arg, **kw)
+                elif route == 'findmd':
+                    df = self.csv2pandas(p_arg, findmd=True, **kw)
                 else:
-                    df = self.csv2pandas(csvpath, findmd=True)
+                    # the documented two-step route: keyword arguments for
+                    # pandas.read_csv generated from the metadata, given as
+                    # a path or as the loaded JSON document
+                    if route == 'kwargs':
+                        spec = m_arg
+                    elif route == 'kwargs-dict':
+                        with open(mdpath) as f:
+                            spec = json.load(f)
+                    else:
+                        raise ValueError(route)
+                    before = copy.deepcopy(spec)
+                    rkw = self.gen_pandas_kwargs(spec)
+                    if spec != before:
+                        raise ReturnShape('gen_pandas_kwargs changed the '
+                                          'document it was given')
+                    df = self.pd.read_csv(p_arg, **rkw)
+            if opt == 'return_md':
+                if not (isinstance(df, tuple) and len(df) == 2 and
+                        isinstance(df[0], self.pd.DataFrame) and
+                        hasattr(df[1], 'fields')):
+                    return 'raise', ReturnShape(
+                        'return_md=True returned %s' % type(df).__name__)
+                df = df[0]
             return 'ok', df
         except Exception as e:
             return 'raise', e
+        finally:
+            os.chdir(self.home)
 
     def observed_cell(self, v):
         pd = self.pd
@@ -657,6 +1196,8 @@ class C16(Check):
     def run_case(self, case):
         if case['part'] == 'a':
             return self.run_a(case)
+        if case['part'] == 'h':
+            return self.run_h(case)
         return self.run_b(case)
 
     # ---- part (a)
@@ -930,10 +1471,28 @@ class C16(Check):
                 else:
                     row.append(v)
             rows.append(row)
+        opt = case.get('opt')
+        pathform = case.get('pathform', 'abs')
+        mdpathform = case.get('mdpathform', 'abs')
         st, got = self.load(cols, rows, delim, d['encoding'], d['header'],
                             case['form'], case['layout'], case['route'],
                             case['explicit'], eol, meta == 'virtual-last',
-                            want_md_errors=noname)
+                            want_md_errors=noname, opt=opt,
+                            pathform=pathform, mdpathform=mdpathform,
+                            stem=case.get('stem', 't'),
+                            clear=not case.get('keep', False))
+        # what was observed, canonically (for the differential clauses)
+        if st == 'raise':
+            self.last_digest = ['raise', type(got).__name__, msg_class(got)]
+        elif st == 'flagged':
+            self.last_digest = ['flagged']
+        else:
+            self.last_digest = [
+                'ok', [c if isinstance(c, str) else repr(c)
+                       for c in got.columns],
+                [str(t) for t in got.dtypes],
+                [[list(self.observed_cell(v)) for v in got[c].tolist()]
+                 for c in got.columns]]
         n = len(rows)
         exp = [[S.expected_cell(c, v) for c, v in zip(cols, row)]
                for row in rows]
@@ -945,7 +1504,10 @@ class C16(Check):
         detail = {'columns': cols, 'rows': case['rows'], 'dialect': d,
                   'form': case['form'], 'layout': case['layout'],
                   'route': case['route'], 'explicit': case['explicit'],
-                  'meta': meta,
+                  'meta': meta, 'opt': opt,
+                  'csv2pandas_keywords': self.option_kwargs(
+                      opt, case['layout'], delim, d['encoding']),
+                  'pathform': pathform, 'mdpathform': mdpathform,
                   'column_descriptions': S.column_descriptions(
                       cols, case['form'], meta == 'virtual-last'),
                   'csv': S.csv_text(cols, rows, delim,
@@ -966,6 +1528,16 @@ class C16(Check):
                           'detail': dd, 'sub': sub})
             info['outs'].append(out or 'b:%s:%s' % (d['header'], key))
 
+        if st == 'raise' and 'pathlib' in (pathform + mdpathform):
+            # the statement does not say which objects may name a file;
+            # tdda documents "path".  A refused pathlib.Path is unspecified,
+            # one that is accepted has to load the described table
+            info['unspec'] += 1
+            info['nontrivial'] = False
+            info['outs'].append('b:unspecified:pathlib-refused:%s:%s' % (
+                'path' if 'pathlib' in pathform else 'mdpath',
+                type(got).__name__))
+            return [], info
         if st == 'raise':
             fail('raises:' + msg_class(got) + empty, 'loads-without-error',
                  {'exception': repr(got)[:300]})
@@ -983,6 +1555,25 @@ class C16(Check):
         temporal = ('date', 'datetime')
         for j, c in enumerate(cols):
             dn = str(got[S.declared_name(c)].dtype)
+            if not S.dtype_ok(c['type'], dn) and \
+                    opt == 'upgrade_types-false':
+                # the caller asked tdda not to upgrade column types: which
+                # dtype comes back then is not decided by the statement
+                info['unspec'] += 1
+                info['outs'].append('b:unspecified:upgrade_types-false:'
+                                    '%s->%s' % (c['kind'], dn))
+                continue
+            if not S.dtype_ok(c['type'], dn) and n == 0 and \
+                    c['type'] in temporal and \
+                    case['route'].startswith('kwargs'):
+                # gen_pandas_kwargs promises keyword arguments implementing
+                # the metadata "as closely as possible": no read_csv keyword
+                # types an EMPTY column as datetime (csv2pandas does it
+                # afterwards), so this is not decided
+                info['unspec'] += 1
+                info['outs'].append('b:unspecified:kwargs-route-empty-'
+                                    'temporal->%s' % dn)
+                continue
             if not S.dtype_ok(c['type'], dn):
                 shape = 'rows0' if n == 0 else \
                     'allnull' if all(r[j] is None for r in rows) else 'vals'
@@ -1044,13 +1635,16 @@ class C16(Check):
         ('layout', 'single', lambda v: 'layout=' + v),
         ('route', 'both', lambda v: 'route=' + v),
         ('explicit', False, lambda v: 'explicit-defaults'),
+        ('opt', None, lambda v: 'opt=' + v),
+        ('pathform', 'abs', lambda v: 'path=' + v),
+        ('mdpathform', 'abs', lambda v: 'mdpath=' + v),
     ]
 
     @staticmethod
     def get_dim(case, dim):
         if dim in BASE_DIALECT:
             return case['dialect'].get(dim, BASE_DIALECT[dim])
-        return case.get(dim, 'plain' if dim == 'meta' else None)
+        return case.get(dim, [x[1] for x in C16.DIMS if x[0] == dim][0])
 
     @staticmethod
     def with_dim(case, dim, value):
@@ -1070,8 +1664,11 @@ class C16(Check):
         R.unspec += info['unspec']
         for o in info['outs']:
             R.out(o)
-        if not fails:
-            return R
+        if fails:
+            self.report_b(R, case, fails)
+        return R
+
+    def report_b(self, R, case, fails):
         devs = [(dim, self.get_dim(case, dim), name)
                 for (dim, default, name) in self.DIMS
                 if self.get_dim(case, dim) != default]
@@ -1092,6 +1689,60 @@ class C16(Check):
         for f in fails:
             R.viol('b:%s:%s' % (f['key'], ctxs[id(f)]), f['clause'],
                    f['detail'], f['sub'])
+
+    # ---- part (h): histories
+    def run_h(self, case):
+        R = Res()
+        steps = case['steps']
+        aspect = case['aspect']
+        # the history, from the pristine state
+        self.pristine.restore()
+        seen = []
+        for i, st in enumerate(steps):
+            if i and case['files'] == 'distinct':
+                st = dict(st, keep=True)
+            fails, info = self.eval_b(st)
+            R.ev()
+            seen.append((fails, info, self.last_digest))
+            R.unspec += info['unspec']
+        R.states = len(steps) + 1
+        R.nontrivial = len(steps) > 1 and seen[-1][1]['nontrivial']
+        history_dependent = False
+        for i, st in enumerate(steps):
+            fails, info, digest = seen[i]
+            if i:
+                # the same load from the pristine state
+                self.pristine.restore()
+                fails0, _ = self.eval_b(st)
+                R.ev()
+                fresh = self.last_digest
+                if digest != fresh:
+                    history_dependent = True
+                    if fails:
+                        what = ':'.join(fails[0]['key'].split(':')[:2])
+                        clause = fails[0]['clause']
+                    else:
+                        what = 'differs-from-fresh[%s]' % (
+                            'outcome' if digest[0] != fresh[0] else
+                            'names' if digest[1] != fresh[1] else
+                            'dtypes' if digest[2] != fresh[2] else 'values')
+                        clause = 'same-result-as-from-fresh-state'
+                    detail = {'aspect': aspect, 'history': case['labels'],
+                              'tables': case['tables'],
+                              'files': case['files'], 'step': i,
+                              'after_history': digest, 'fresh': fresh}
+                    if fails:
+                        detail['load'] = fails[0]['detail']
+                    R.viol('h:after-history[%s]:%s' % (aspect, what), clause,
+                           detail, {'step': i})
+                    continue
+            if fails:
+                # fails whatever ran before: reported as the table layers do
+                self.pristine.restore()
+                self.report_b(R, dict(st, keep=False), fails)
+        R.out('h:%s:%s:%s' % (aspect, case['files'],
+                              'history-dependent' if history_dependent else
+                              '|'.join(o for o in seen[-1][1]['outs'])[:80]))
         return R
 
     @staticmethod
